@@ -2,6 +2,8 @@
 
 MC  : MC_Convert - for every canonical-shape version in the bound the SemVer text is in the
       SemVer language and prints back, the PEP 440 image is an accepted normal form.
+      MC_ToZerv - the SemVer -> Zerv identifier machine (ToZerv.tla) composed with Render.tla: both
+      renderings of every identifier list in the bound are well-formed and canonical lists are unchanged.
 Gen : each version goes through `zerv render` (in-process) in the four directions; expected:
       SemVer unchanged, the PEP 440 image, back to the original, every output a fixed point of
       re-conversion; with a numeral beyond the format's range (2^32, 2^64, 25 digits, one
@@ -38,6 +40,15 @@ def run(tier):
         raise core.ToolError("nothing generated")
     v.add(rep["mismatches"])
     os.remove(r["out_path"])
+    # the SemVer -> Zerv identifier machine (ToZerv.tla) on arbitrary label-heavy identifier lists
+    tz_len = 4 if tier == "quick" else 5
+    rz = core.tlc("MC_ToZerv", "SPECIFICATION Spec\nCONSTANTS\n  MaxLen = %d\n  Emit = TRUE\nINVARIANTS RenderingsWellFormed CanonicalUnchanged EmitLine\nCHECK_DEADLOCK FALSE\n" % tz_len,
+                  "c07-tozerv", workers=12, timeout=7200)
+    repz = core.zv(["replay", "tozerv", rz["out_path"]], timeout=14400)
+    core.log("  ToZerv machine: %d identifier lists (<= %d identifiers), %d renderings replayed, %d mismatches"
+             % (rz["distinct"], tz_len, repz["evaluations"], repz["mismatch_count"]))
+    v.add(repz["mismatches"])
+    os.remove(rz["out_path"])
     n = 20000 if tier == "quick" else 200000
     chunk = 20000
     tev = tbad = 0
@@ -54,7 +65,7 @@ def run(tier):
             v.add([dict(key="C07:panic" if panic else "C07:conversion", line=i, trace=path, kind=ev["k"],
                         input=core.cp_text(ev["s"]), observed=obs)])
     core.log("  validated %d recorded conversion chains, %d rejected" % (tev, tbad))
-    cov = dict(states=r["distinct"], transitions=r["states"], traces_validated_against_impl=rep["evaluations"] + tev,
+    cov = dict(states=r["distinct"] + rz["distinct"], transitions=r["states"] + rz["states"], traces_validated_against_impl=rep["evaluations"] + repz["evaluations"] + tev,
                samples=rep["samples"][:5], evaluations=rep["evaluations"] + tev, distinct_nontrivial=rep["nontrivial"],
                rule="Gen: canonical-shape versions: all 16 shapes x numbers %s in all 7 numeric slots x 3 labels x 4 "
                     "build-metadata choices, plus 2^32-1 / 2^32 / 2^64-1 / 2^64 / 25-digit numerals in one slot at a "
